@@ -9,7 +9,7 @@ def run(res, tier, seed, replay):
                        "mutated texts; a record is non-trivial if distinct after canonicalisation; every record is recomputed by the "
                        "extracted Coq model and compared; PROPFAIL = the round-trip property itself failing on the implementation")
     res.assumptions += ["model covers base-62 integers, VTMF_Card, VTMF_CardSecret, TMCG_Card, TMCG_CardSecret, TMCG_Stack<VTMF_Card>, TMCG_Stack<TMCG_Card>, "
-                        "TMCG_StackSecret<VTMF_CardSecret>, TMCG_StackSecret<TMCG_CardSecret>; open stacks, keys and group/state texts are covered by the implementation-level "
+                        "TMCG_StackSecret<VTMF_CardSecret>, TMCG_StackSecret<TMCG_CardSecret>, the TMCG_PublicKey text; the secret key, keys and group/state texts are covered by the implementation-level "
                         "round-trip oracle only (testing, not proof)",
                         "iostream getline buffering (TMCG_MAX_*_CHARS truncation) is not modelled"]
     vpl.proof_stage(res, LIBS)
